@@ -18,6 +18,49 @@ CHECKS = {
         "(DESIGN §4 C14), not a blanket tolerance.",
         "oracles/sphere.py",
     ),
+    "C01": (
+        "exploration",
+        "reference-model monitor at autocorrelate/crosscorrelate against a brute-force O(n*m) pair oracle with interval bounds",
+        "Real measurements on generated catalogs (hostile geometry: compact clusters far apart, dense-compact vs sparse-wide "
+        "samples, uneven patch extents, pole, RA wrap, antipodes; zmin down to 0.002 and z up to 5; empty bins/patches; all "
+        "units; overlapping and many-edged scale sets; separation weighting) are compared cell by cell - every (scale, bin, "
+        "patch i, patch j) of dd/dr/rd/rr and every sum_weights entry - with weight-product sums over all object pairs "
+        "computed from the records read back from the cache; evidence lists cells compared, pairs in the oracle and how many "
+        "cases had counted pairs in patch pairs farther apart than their radii (pruning relevant).",
+        "n <= ~400 objects per catalog (quadratic oracle); catalogs share centres; pairs within 1e-10 of an interval edge may "
+        "go either way; with separation weighting only proportionality (one constant per kind and bin, equal across kinds).",
+        "oracles/pairs.py",
+    ),
+    "C03": (
+        "exploration",
+        "reference-model monitor: leave-one-out by actual deletion (arrays) and by re-running the measurement without patch k",
+        "Every jackknife row of counts, normalisation, normalised ratio, CorrFunc.sample(), RedshiftData and HistData is "
+        "compared with the statistic recomputed after deleting patch k (numerator/denominator separately, ratios where well "
+        "conditioned); covariance against the textbook double loop, symmetry, eigenvalues, error; end-to-end runs rebuild the "
+        "catalogs without patch k and re-measure with the real code.",
+        "Ratios judged only where the leave-one-out denominator exceeds 1e-9 of the full value; end-to-end geometry is pruning-safe.",
+        "oracles/jack.py",
+    ),
+    "C04": (
+        "exploration",
+        "reference-model monitor: documented formulae written out on the raw arrays with explicit loops",
+        "CorrFunc.sample() for all 7 member subsets (auto and cross), RedshiftData.from_corrfuncs/from_corrdata for value and "
+        "every sample, and .normalised() of HistData/RedshiftData are compared with the formulae of the statement evaluated "
+        "directly on counts and weight sums, on generated containers and on real measurements.",
+        "Either Davis-Peebles form accepted when DR and RD exist without RR; RR without DR may raise; infinite terms (counts "
+        "over a zero weight product) are not judged.",
+        "oracles/jack.py",
+    ),
+    "C10": (
+        "exploration",
+        "reference-model monitor (explicit interval rule) with three consumers compared on edge-valued lattices",
+        "Catalogs whose redshifts contain every bin edge exactly, +-1 ulp, out-of-range values and duplicates are binned by the "
+        "three real consumers (BinnedTrees, the sum_weights of a real crosscorrelate, HistData.from_catalog per patch) and "
+        "compared per bin and patch with lo<z<=hi / lo<=z<hi and with each other, including empty bins and patches without "
+        "any object inside the binning.",
+        "Patch membership fixed by construction.",
+        "oracles/binrule.py",
+    ),
     "C11": (
         "exploration",
         "round-trip monitors with member-wise comparison and an independent decimal oracle for the text format",
